@@ -120,7 +120,12 @@ def build(r, cls):
         attrib = {} if s["hint"] is None else {"__implicit_hydrogens": s["hint"]}
         atoms.append(Atom(element=s["el"], formal_charge=s["fc"], formal_spin=s["spin"], attrib=attrib))
     kw = {"atomic_charges": np.linspace(-0.2, 0.2, len(atoms))} if cls is ml.Molecule else {}
+    if cls is ml.Molecule and r.get("decl"):
+        # total charge / multiplicity declared at molecule level (not derivable from per-atom annotations), name, attributes
+        kw.update(charge=r["decl"][0], mult=r["decl"][1], name="declared")
     m = cls(atoms, coords=coords, **kw)
+    if cls is ml.Molecule and r.get("decl"):
+        m.attrib["note"] = "kept"
     for (i, j, bt) in bonds:
         m.connect(i, j, btype=BondType(bt))
     return m
@@ -138,6 +143,7 @@ def oracle(m, fails, where, second_call=True, subject=None):
                      chem.norm_attr({k: v for k, v in a.attrib.items() if k != "__implicit_hydrogens"})) for a in atoms0]
     before_bonds = [(id(b.a1), id(b.a2), int(b.btype), b.label, int(b.stereo), b.f_order) for b in m.bonds]
     before_coords = m.coords.copy()
+    before_mol = (m.charge, m.mult, m.name, chem.norm_attr(dict(m.attrib))) if isinstance(m, ml.Molecule) else None
     before_q = np.array(m.atomic_charges, dtype=float).copy() if hasattr(m, "atomic_charges") else None
     neigh0 = {id(a): [x for x in m.connected_atoms(a)] for a in atoms0}
     bv0 = {}
@@ -176,6 +182,8 @@ def oracle(m, fails, where, second_call=True, subject=None):
         q = np.asarray(m.atomic_charges)
         if len(q) != m.n_atoms or q.dtype.kind != "f" or not np.array_equal(np.asarray(q[:n0], dtype=float), before_q, equal_nan=True):
             fails.append(Fail("existing-charges-changed-or-misaligned", where))
+    if before_mol is not None and (m.charge, m.mult, m.name, chem.norm_attr(dict(m.attrib))) != before_mol:
+        fails.append(Fail("molecule-level-charge-multiplicity-name-or-attributes-changed", f"{where}: {before_mol} -> {(m.charge, m.mult, m.name, dict(m.attrib))}"))
     if m.coords.shape != (m.n_atoms, 3):
         fails.append(Fail("coords-rows!=atoms", f"{where}: {m.coords.shape} for {m.n_atoms} atoms"))
         return labels
@@ -300,6 +308,7 @@ def strat_grown(tier):
     return st.fixed_dictionaries({
         "cls": st.sampled_from(["Molecule", "Molecule", "Structure"]), "root": root, "nodes": st.lists(node, min_size=0, max_size=12),
         "gseed": st.integers(0, 10**6), "orient": st.sampled_from(["random", "random", "as_built", "first_bond_along_z"]),
+        "decl": st.one_of(st.none(), st.tuples(st.integers(-2, 2), st.integers(1, 4)).map(list)),
     })
 
 
